@@ -457,10 +457,42 @@ def corr_no_x_2d(ctx):
     return ok
 
 
+def corr_no_x_helpers(ctx):
+    """_validation._yx_arrays / _yxz_arrays called directly (the class prologues and utils use them)."""
+    from pybaselines import _validation as V
+    ok = True
+    for N in (2, 3, 8, 31):
+        for tag, obj in nox_data_kinds(N):
+            r, e = quiet(lambda: V._yx_arrays(obj))
+            if e is not None:
+                continue
+            ctx.case(('yx_arrays', N, tag), nontrivial=True, kind=f'nox-helper:{tag}')
+            if not exact_linspace(r[1], N):
+                ok = False
+                ctx.fail(f'no_x:_yx_arrays:data={tag}', f'_yx_arrays(data of kind {tag}, N={N}) returns x of dtype '
+                         f'{np.asarray(r[1]).dtype}, not float64 np.linspace(-1, 1, N)',
+                         {'kind': 'nox-helper', 'N': N, 'tag': tag, 'two_d': False})
+    for Mx, Nz in ((4, 6), (7, 3)):
+        for tag, obj in nox_data_kinds((Mx, Nz), True):
+            for which, xo, zo in (('no-x-no-z', None, None), ('no-x', None, np.linspace(-1, 1, Nz)),
+                                  ('no-z', np.linspace(-1, 1, Mx), None)):
+                r, e = quiet(lambda: V._yxz_arrays(obj, xo, zo))
+                if e is not None:
+                    continue
+                ctx.case(('yxz_arrays', Mx, Nz, tag, which), nontrivial=True, kind=f'nox-helper2d:{tag}')
+                if not (exact_linspace(r[1], Mx) and exact_linspace(r[2], Nz)):
+                    ok = False
+                    ctx.fail(f'no_x:_yxz_arrays:data={tag}', f'_yxz_arrays(data of kind {tag}, shape {(Mx, Nz)}, {which}) returns x/z '
+                             f'of dtype {np.asarray(r[1]).dtype}/{np.asarray(r[2]).dtype}, not float64 np.linspace(-1, 1, len)',
+                             {'kind': 'nox-helper', 'N': [Mx, Nz], 'tag': tag, 'two_d': True, 'which': which})
+    return ok
+
+
 def corr_no_x(ctx):
     from pybaselines import Baseline
     lits = []
     ok2d = corr_no_x_2d(ctx)
+    ok2d = corr_no_x_helpers(ctx) and ok2d
     for N in list(range(1, ctx.n(24, 80))) + [101, 256]:
         y = np.arange(N, dtype=float)
         f0 = Baseline()
@@ -508,7 +540,7 @@ Definition ok (c : nat * Z * Z * Z * bool * Z * Z * Z * bool * bool * bool) : bo
     vals = ctx.coq_eval('nox', text)
     ctx.obligations.append('correspondence:no-x-state')
     if not ok2d:
-        ctx.broke('correspondence:no-x-state', 'the x / z created by the 2-D prologue is not float64 linspace(-1, 1, len)')
+        ctx.broke('correspondence:no-x-state', 'the x / z created by the 2-D prologue or by _yx_arrays/_yxz_arrays is not float64 linspace(-1, 1, len)')
     if vals is not None:
         if is_zero(vals) and ok2d:
             ctx.discharged.append('correspondence:no-x-state')
@@ -1008,6 +1040,20 @@ def replay(rep):
         if not ctx.violations:
             print('replay: property holds on this input')
         return 1 if ctx.violations else 0
+    if case.get('kind') == 'nox-helper':
+        from pybaselines import _validation as V
+        N = case['N']
+        if case.get('two_d'):
+            obj = dict(nox_data_kinds(tuple(N), True))[case['tag']]
+            xl, zl_ = np.linspace(-1, 1, N[0]), np.linspace(-1, 1, N[1])
+            xo, zo = {'no-x-no-z': (None, None), 'no-x': (None, zl_), 'no-z': (xl, None)}[case['which']]
+            r = V._yxz_arrays(obj, xo, zo)
+            bad = not (exact_linspace(r[1], N[0]) and exact_linspace(r[2], N[1]))
+        else:
+            r = V._yx_arrays(dict(nox_data_kinds(N))[case['tag']])
+            bad = not exact_linspace(r[1], N)
+        print('replay _yx_arrays/_yxz_arrays:', 'created x/z is not float64 linspace' if bad else 'property holds on this input')
+        return 1 if bad else 0
     if case.get('kind') == 'nox-created-x':
         from pybaselines import Baseline, Baseline2D
         N = case['N']
